@@ -2,7 +2,7 @@ use ckb_network::{CKBProtocolContext, PeerIndex};
 use ckb_types::{
     packed,
     prelude::*,
-    utilities::{merkle_mountain_range::VerifiableHeader, merkle_root, MerkleProof},
+    utilities::{merkle_mountain_range::VerifiableHeader, merkle_root},
 };
 use log::{debug, error};
 
@@ -170,19 +170,19 @@ impl<'a> SendTransactionsProofProcess<'a> {
                 let proof = filtered_block.proof();
                 let indices: Vec<u32> = proof.indices().into_iter().map(|v| v.unpack()).collect();
                 let lemmas: Vec<packed::Byte32> = proof.lemmas().into_iter().collect();
-                let merkle_proof = MerkleProof::new(indices, lemmas);
-                match merkle_proof
-                    .root(
-                        &filtered_block
-                            .transactions()
-                            .into_iter()
-                            .map(|tx| tx.calc_tx_hash())
-                            .collect::<Vec<_>>(),
-                    )
-                    .map(|raw_transactions_root| {
-                        filtered_block.header().raw().transactions_root()
-                            == merkle_root(&[raw_transactions_root, witnesses_root])
-                    }) {
+                match strict_merkle_proof_root(
+                    &indices,
+                    &lemmas,
+                    filtered_block
+                        .transactions()
+                        .into_iter()
+                        .map(|tx| tx.calc_tx_hash())
+                        .collect::<Vec<_>>(),
+                )
+                .map(|raw_transactions_root| {
+                    filtered_block.header().raw().transactions_root()
+                        == merkle_root(&[raw_transactions_root, witnesses_root])
+                }) {
                     Some(true) => {}
                     _ => {
                         let errmsg = format!(
@@ -219,4 +219,53 @@ impl<'a> SendTransactionsProofProcess<'a> {
             .mark_fetching_txs_missing(&missing_tx_hashes);
         Status::ok()
     }
+}
+
+/// The root of a CBMT merkle proof, computed as `merkle_cbt::MerkleProof::root` does, but strictly:
+/// the library silently drops a node for which neither a sibling nor a lemma is left (so a
+/// leaf which is not in the tree could ride on the proof of the other leaves), and it does
+/// unchecked arithmetics on the indices, which are from the peer.
+fn strict_merkle_proof_root(
+    indices: &[u32],
+    lemmas: &[packed::Byte32],
+    mut leaves: Vec<packed::Byte32>,
+) -> Option<packed::Byte32> {
+    if leaves.len() != indices.len() || leaves.is_empty() {
+        return None;
+    }
+    leaves.sort();
+    let mut pre = indices
+        .iter()
+        .map(|index| u64::from(*index))
+        .zip(leaves.into_iter())
+        .collect::<Vec<_>>();
+    pre.sort_by_key(|(index, _)| std::cmp::Reverse(*index));
+    if pre.windows(2).any(|pair| pair[0].0 == pair[1].0) {
+        return None;
+    }
+    let mut queue: std::collections::VecDeque<(u64, packed::Byte32)> = pre.into();
+    let mut lemmas_iter = lemmas.iter();
+    while let Some((index, node)) = queue.pop_front() {
+        if index == 0 {
+            // ensure that all lemmas and leaves are consumed
+            return if lemmas_iter.next().is_none() && queue.is_empty() {
+                Some(node)
+            } else {
+                None
+            };
+        }
+        let is_left = index & 1 == 1;
+        let sibling_index = if is_left { index + 1 } else { index - 1 };
+        let sibling = match queue.front() {
+            Some((front, _)) if *front == sibling_index => queue.pop_front().map(|item| item.1),
+            _ => lemmas_iter.next().cloned(),
+        }?;
+        let parent = if is_left {
+            merkle_root(&[node, sibling])
+        } else {
+            merkle_root(&[sibling, node])
+        };
+        queue.push_back(((index - 1) >> 1, parent));
+    }
+    None
 }
